@@ -264,4 +264,45 @@ theorem renderableE_mapStrings (fmt : R → List UInt8) (pr : List UInt8 → Opt
       exact ⟨renderable_mapStrings fmt pr f v h.1, renderableE_mapStrings fmt pr f rest h.2⟩
 end
 
+
+theorem mapStrE_inverts (e d : List UInt8 → List UInt8) (h : ∀ s, d (e s) = s) (kvs : List (List UInt8 × Prim R)) :
+    mapStrE d (mapStrE e kvs) = kvs := by
+  rw [PdfShift.mapStrE_comp]; exact PdfShift.mapStrE_id _ h kvs
+
+theorem lengthIs_mapStringsE (env : Env R) (f : List UInt8 → List UInt8) (info : Dict R) (n : Nat)
+    (h : LengthIs env info n) : LengthIs (noDec env) (mapStringsE f info) n := by
+  have key : ∀ v, dictGet info kwLength = some v → dictGet (mapStringsE f info) kwLength = some (mapStrings f v) := by
+    intro v hv
+    rw [mapStringsE_eq, PdfShift.dictGet_mapStr, hv, mapStrings_eq]; rfl
+  rcases h with h | ⟨i, g, h, hr⟩
+  · left; simpa [mapStrings] using key _ h
+  · right; exact ⟨i, g, by simpa [mapStrings] using key _ h, hr⟩
+
+/-- an encrypted stream object: the strings of its dictionary are decrypted, the data range is returned as is -/
+theorem parseIndirectObject_stream_enc (env : Env R) (d e : Nat → Nat → List UInt8 → List UInt8) (id gen : Nat)
+    (hinv : ∀ s, d id gen (e id gen s) = s) (info : Dict R) (data txt : List UInt8)
+    (hsp : PdfSyntax.SpellsStreamEnc env.parseReal e id gen info data txt) (hk : KeysDistinctE info)
+    (hnd : (keysOf info).Nodup) (hu : namesUtf8E info = true) (hlen : LengthIs env info data.length)
+    {buf : Buf} (hsz : buf.size ≤ 2147483647)
+    (g0 a g1 b g2 g3 g4 rest : List UInt8) (pos fuel : Nat) (hg0 : Gap g0)
+    (ha : PdfSyntax.NatTok a id) (hb : PdfSyntax.NatTok b gen) (hg1 : Gap g1) (hg1ne : g1 ≠ []) (hg2 : Gap g2)
+    (hg2ne : g2 ≠ []) (hid : id ≤ 18446744073709551615) (hgen : gen ≤ 18446744073709551615) (hg3 : Gap g3) (hg4 : Gap g4)
+    (hg4ne : g4 ≠ [])
+    (h : Suffix buf pos (g0 ++ a ++ g1 ++ b ++ g2 ++ kwObj ++ g3 ++ txt ++ g4 ++ kwEndobj ++ rest))
+    (hbnd : Bnd rest) (hfuel : 2 + needE info ≤ fuel) (hdepth : 1 + vdepthE info ≤ maxDepth) :
+    ∃ dataPos, parseIndirectObject (withDec env d) buf fuel pos Flags.any =
+        .ok (((id, gen), streamAt env info (id, gen) dataPos data.length),
+          pos + (g0 ++ a ++ g1 ++ b ++ g2 ++ kwObj ++ g3 ++ txt ++ g4 ++ kwEndobj).length) ∧
+      slice buf dataPos (dataPos + data.length) = data := by
+  have sh := sameShapeE_mapStrings (e id gen) info
+  have hwf : WFE (mapStringsE (e id gen) info) := PdfSyntax.wfE_of _ (sh.kd.mpr hk) (by rw [sh.nu]; exact hu)
+  obtain ⟨dataPos, h0, hdata⟩ := parseIndirectObject_stream (noDec env) rfl (mapStringsE (e id gen) info) data txt hsp hwf
+    (by rw [sh.ks]; exact hnd) (lengthIs_mapStringsE env (e id gen) info data.length hlen) hsz g0 a g1 b g2 g3 g4 rest id gen pos fuel
+    hg0 ha hb hg1 hg1ne hg2 hg2ne hid hgen hg3 hg4 hg4ne h hbnd (by rw [sh.nd]; exact hfuel) (by rw [sh.vd]; exact hdepth)
+    Flags.any (by decide)
+  refine ⟨dataPos, ?_, hdata⟩
+  rw [parseIndirectObject_dec, h0]
+  simp only [omap, streamAt, mapStr, mapStringsE_eq, mapStrE_inverts (e id gen) (d id gen) hinv info]
+  rfl
+
 end PdfLex
